@@ -80,7 +80,25 @@ def run_case(case, n):
     return {'runs': runs, 'cache': cache, 'view': view, 'samples': samples, 'contigs': contigs, 'printed': noise}
 
 
+def read_cache_text(text, n):
+    """the real read_cached on an arbitrary cache file"""
+    from singlecellmultiomics.alleleTools import AlleleResolver
+    path = os.path.join(os.environ['SCMO_SCRATCH'], 'cache%d.tsv.gz' % n)
+    with gzip.open(path, 'wb') as f:
+        f.write(text.encode('utf-8'))
+    ar = AlleleResolver()          # no vcf: an empty resolver
+    raised = None
+    try:
+        ar.read_cached(path, 'c')
+    except Exception as e:
+        raised = '%s: %s' % (type(e).__name__, e)
+    d = ar.locationToAllele['c'] if 'c' in ar.locationToAllele else {}
+    return {'entries': [[p_, b, sorted(d[p_][b])] for p_ in d for b in d[p_]], 'raised': raised}
+
+
 def handler(p):
+    if 'cache_texts' in p:
+        return {'texts': [read_cache_text(t, n) for n, t in enumerate(p['cache_texts'])]}
     out = []
     for n, case in enumerate(p['cases']):
         try:
